@@ -500,7 +500,26 @@ def vg_iterate(c, a):
         if r == FAIL:
             break
         vrefs.append(r)
-    return {"vg": _ids(c, refs, "G"), "vs": _ids(c, vrefs, "D")}
+    vg, vs = _ids(c, refs, "G"), _ids(c, vrefs, "D")
+    # the other views of the same sets: Vgetvgroups / VSgetvdatas on the file (user-created objects: none of the model's
+    # objects carries a class the library reserves for itself), as a count (no array) and as a list, whole and in two halves
+    for fn, mine, tag in ((L.Vgetvgroups, refs, "?Vgetvgroups"), (L.VSgetvdatas, vrefs, "?VSgetvdatas")):
+        n = fn(c.h["F"], 0, 0, None)
+        if n != len(mine):
+            (vg if fn is L.Vgetvgroups else vs).append("%s:count=%d" % (tag, n))
+            continue
+        if n > 0:
+            arr = (ctypes.c_uint16 * n)()
+            got = fn(c.h["F"], 0, n, arr)
+            whole = [arr[i] for i in range(max(got, 0))]
+            h = n // 2
+            a1, a2 = (ctypes.c_uint16 * max(h, 1))(), (ctypes.c_uint16 * max(n - h, 1))()
+            g1 = fn(c.h["F"], 0, h, a1) if h else 0
+            g2 = fn(c.h["F"], h, n - h, a2)
+            halves = [a1[i] for i in range(max(g1, 0))] + [a2[i] for i in range(max(g2, 0))]
+            if sorted(whole) != sorted(mine) or halves != whole:
+                (vg if fn is L.Vgetvgroups else vs).append("%s:%s/%s" % (tag, whole, halves))
+    return {"vg": vg, "vs": vs}
 
 
 @op("VGroup", "Find")
